@@ -191,6 +191,12 @@ fn collect_out(shared: &SchedShared, failure: Option<Failure>) -> RunOut {
   }
 }
 
+/// A scenario caught a panic it expected (e.g. a reported dependency cycle): forget it, so a
+/// later failure of the run is classified by its own message.
+pub fn forget_caught_panic() {
+  LAST_PANIC.with(|p| *p.borrow_mut() = None);
+}
+
 fn classify(payload: Box<dyn std::any::Any + Send>) -> Failure {
   let (mut msg, loc) = LAST_PANIC.with(|p| p.borrow_mut().take()).unwrap_or_default();
   if msg.is_empty() {
